@@ -69,3 +69,27 @@ Lemma sites_listed_proof :
   map fst staging_sites =
   ["openStagedOutputWithOperations"; "createStreamOutput"; "writeCutOutputWith"; "createStagedFile"]%string.
 Proof. reflexivity. Qed.
+
+(* every function that opens the output of a publish protocol inspects the destination with os.Stat only and
+   opens files with O_CREATE|O_EXCL only (no O_TRUNC / O_APPEND, no os.Create / os.WriteFile / os.Open) *)
+Lemma publish_sites_exclusive_proof :
+  forall name s, In (name, s) publish_sites ->
+  (forall k, In k (ps_stats s) -> k = SStat) /\
+  (forall fl, In fl (ps_opens s) -> open_exclusive fl = true) /\
+  ps_opens s <> [].
+Proof.
+  assert (Hall : forallb (fun x => pubsite_ok (snd x) && negb (Nat.eqb (length (ps_opens (snd x))) 0)) publish_sites = true)
+    by (vm_compute; reflexivity).
+  intros name s Hin. rewrite forallb_forall in Hall. specialize (Hall _ Hin). cbn [snd] in Hall.
+  apply andb_true_iff in Hall. destruct Hall as [Hok Hne]. unfold pubsite_ok in Hok.
+  apply andb_true_iff in Hok. destruct Hok as [Hs Ho]. rewrite forallb_forall in Hs, Ho.
+  split; [|split].
+  - intros k Hk. specialize (Hs k Hk). destruct k; [reflexivity|discriminate].
+  - exact Ho.
+  - intros Hnil. rewrite Hnil in Hne. discriminate.
+Qed.
+
+Lemma publish_sites_listed_proof :
+  map fst publish_sites =
+  ["createStreamOutput"; "openStagedOutputWithOperations"; "createStagedFile"; "writeCutOutputWith"]%string.
+Proof. reflexivity. Qed.
